@@ -368,6 +368,12 @@ def remove_knot(obj, param, num, **kwargs):
             # Compute new knot vector
             kv_new = helpers.knot_removal_kv(obj.knotvector, span, num[0])
 
+            # A removal which cannot be carried out (e.g. of the knots which clamp the curve) is refused before the curve
+            # is touched
+            if len(kv_new) != len(ctrlpts_new) + obj.degree + 1:
+                raise GeomdlException("Knot " + str(param[0]) + " cannot be removed " + str(num[0]) + " times",
+                                      data=dict(knot=param[0], num=num[0], multiplicity=s))
+
             # Update curve
             obj.set_ctrlpts(ctrlpts_new)
             obj.knotvector = kv_new
